@@ -63,6 +63,10 @@ CLAIMS = {
    technique="decision-list conformance of ExtractContent with path-resolved phis; structural checks of the per-pass construction; guard-cut of the flag-dependent skips in the converter; global-reader scan",
    text="Decides the two-pass skeleton: pruning pass first, second pass with Default iff the first yields <= 499 words, document and count from the same pass; each pass uses fresh builder/converter over a deep clone; the flag-dependent skips are guarded by the complete documented exemptions and the patterns are used nowhere else. Not decided: the metamorphic equalities themselves.",
    design="4/C20"),
+ "C16": dict(
+   technique="sink sanitisation by guard-cut (candidate admission in PrevNext), decision-path enumeration with URL stores as events (validators of numbered links, PrevPage/NextPage sinks), exhaustive classification of every PageInfo.URL / NextPagingURL writer in the module",
+   text="Decides that every URL that can reach NextPage/PrevPage is \"\", or the normalised absolute href of an anchor that passed the parse + scheme://host/ prefix test (PrevNext) resp. parse + host equality + http(s) scheme (PageNumber), or a copy of such a URL; the only other source (the current document's own URL inserted by the detector) is filtered by a normalised comparison before PrevPage is set. Not decided: that the link is the right page (C17) and port/case subtleties of host comparison.",
+   design="4/C16"),
  "C18": dict(
    technique="static decision-list extraction from SSA (normalised branch paths) compared with the documented cascade; literal-table key sets; guard-cut reachability",
    text="Decides, for every path through Classifier.Classify / getDirectDescendants and the converter's table case, that the branch structure equals the documented ordered cascade (order, thresholds, operands, tables, outcomes). Holds for all inputs because it is a statement about the code's decision structure, not about sampled tables. Not decided: row/column counting arithmetic and text validity helpers.",
